@@ -54,22 +54,35 @@ def _chunk(jobs):
             inf = set(_pt(p, D) for p in st["infeasible"])
             proj = bool(st["proj"])
             ideal = set(_pt(p, D) for p in st["ideal"])
-            for (h, tol) in (scalings if tier == "thorough" or si % 7 == 0 else scalings[:1]):
+            # third flavour: an order-preserving value map that puts the outside lattice points a few 1e-7
+            # beyond the (non-zero) bounds -- "just outside" must still be dropped / projected exactly
+            flavours = [("lin", h_, tol_, None) for (h_, tol_) in (scalings if tier == "thorough" or si % 7 == 0 else scalings[:1])]
+            if tier == "thorough" or si % 5 == 0:
+                flavours.append(("near", 1.0, 2.0 ** -30, {-1: -0.8 - 3e-7, 0: -0.8, 1: 1.3, 2: 1.3 + 2e-7}))
+            for (fname, h, tol, vmap) in flavours:
                 total_cases += 1
+                if vmap is None:
+                    fv = lambda c, h=h: float(c) * h
+                    fi = lambda v, h=h: int(round(v / h))
+                else:
+                    fv = lambda c, vmap=vmap: vmap[c]
+                    fi = lambda v, vmap=vmap: min(vmap, key=lambda k: abs(vmap[k] - v))
+                lbv = np.full((1, D), fv(0))
+                ubv = np.full((1, D), fv(1))
                 fl = FunctionLogger(lambda x: 0.0, D, False, 0, cache_size=8)
                 fl.variable_transformer = _IdT()
                 for j, p in enumerate(ev):
-                    fl.X[j] = np.array(p, dtype=float) * h
+                    fl.X[j] = np.array([fv(c) for c in p], dtype=float)
                 fl.X_max_idx = len(ev) - 1
                 fl.Xn = len(ev) - 1
-                U = np.array(cands, dtype=float).reshape(len(cands), D) * h
+                U = np.array([[fv(c) for c in p] for p in cands], dtype=float).reshape(len(cands), D)
 
-                def cons(X, inf=inf, h=h):
+                def cons(X, inf=inf, fi=fi):
                     X = np.atleast_2d(X)
-                    return np.array([tuple(int(round(v / h)) for v in row) in inf for row in X], dtype=bool)
-                where = f"D={D} cands={cands} evaluated={ev} infeasible={sorted(inf)} proj={proj} h={h}"
+                    return np.array([tuple(fi(v) for v in row) in inf for row in X], dtype=bool)
+                where = f"D={D} cands={cands} evaluated={ev} infeasible={sorted(inf)} proj={proj} h={h} map={fname}"
                 try:
-                    out = contraints_check(U.copy(), lb * h, ub * h, tol, fl, proj, cons)
+                    out = contraints_check(U.copy(), lbv, ubv, tol, fl, proj, cons)
                 except Exception as e:
                     if len(cands) == 0:
                         # an empty candidate array is outside the filter's contract in the code base
@@ -80,12 +93,12 @@ def _chunk(jobs):
                                       detail={"error": repr(e)[:200]})
                     continue
                 out = np.atleast_2d(np.asarray(out, dtype=float))
-                rows = [tuple(int(round(v / h)) for v in row) for row in out] if out.size else []
-                exact = [tuple(row) for row in (out / h)] if out.size else []
+                rows = [tuple(fi(v) for v in row) for row in out] if out.size else []
+                exact = [tuple(row) for row in out] if out.size else []
                 oset = set(rows)
                 moved = set((tuple(min(max(c, 0), 1) for c in p) if proj else p) for p in cands
                             if proj or all(0 <= c <= 1 for c in p))
-                if any(abs(a - b) > 1e-9 for ex, ro in zip(exact, rows) for a, b in zip(ex, ro)):
+                if any(abs(a - fv(b)) > 1e-12 * max(1.0, abs(a)) for ex, ro in zip(exact, rows) for a, b in zip(ex, ro)):
                     verdict.violation("C17.out_from_input", site="Filter:component", where=where,
                                       detail={"out": out.tolist()})
                 if any(not all(0 <= c <= 1 for c in p) for p in oset):
